@@ -15,6 +15,9 @@
 //!         that very state.  `run` re-checks that the embedded snapshots are the current ones (else the case is stale: invalid).
 //!   trace: after the last op, per haystack the Trace returned by trace(haystack), parsed from its Debug rendering:
 //!         {regex, count, matched, children, values(sorted)}
+//!   prim: (package W1d) the ip / date / time / week-day primitives of the router through the real `RouteIp`,
+//!         `RouteDateTime`, `RouteTime`, `RouteWeekday` (+ cidr / chrono parsers) vs Model/Cidr.lean, Model/TimeWindow.lean;
+//!         case {"mode":"prim","kind":"ip"|"dt"|"time"|"wd"|"wdcmp", ..}, see `run_prim`.
 //!   rx  : per distinct pattern {p, ok, m[per haystack], pre[[k, ok, m[..]] per scanner boundary k]} (regex crate)
 //!   cp  : [common_prefix_char_size(a,b), get_prefix_with_char_size(a,n), common_prefix(a,b)]
 //! Oracle evaluated on the implementation alone (beh, in-domain cases): find == linear scan of the live
@@ -530,6 +533,10 @@ fn gen(args: &Args, emit: &mut dyn FnMut(Value)) {
         };
         emit(json!({"mode": "cp", "a": a, "b": b, "n": rng.below(10)}));
     }
+    // W1d: ip / date / time / week-day primitives
+    for _ in 0..(args.n / 2).max(200) {
+        gen_prim(&mut rng, emit);
+    }
     if args.tier == "thorough" {
         gen_exhaustive(emit, 4);
     }
@@ -942,11 +949,282 @@ fn compiled_count(snap: &Value) -> usize {
     own + snap.get("children").and_then(|c| c.as_array()).map(|cs| cs.iter().map(compiled_count).sum()).unwrap_or(0)
 }
 
+// ---------------------------------------------------------------------------------------------
+// mode prim (W1d): ip / date / time / week-day primitives
+// ---------------------------------------------------------------------------------------------
+
+fn v4_text(n: u32) -> String {
+    std::net::Ipv4Addr::from(n).to_string()
+}
+
+/// Full eight-group form (no `::` compression) – the canonical text of the model's parser.
+fn v6_text(n: u128) -> String {
+    let a = std::net::Ipv6Addr::from(n);
+    // every third address in the `::`-compressed form `Display` prints (unless it embeds a dotted quad)
+    let d = a.to_string();
+    if n % 3 == 0 && !d.contains('.') {
+        return d;
+    }
+    a.segments().iter().map(|s| format!("{:x}", s)).collect::<Vec<_>>().join(":")
+}
+
+fn rfc3339(secs: i64, nanos: u32, offset_min: i32) -> String {
+    use chrono::{DateTime, FixedOffset, SecondsFormat, Utc};
+    let dt: DateTime<Utc> = DateTime::from_timestamp(secs, nanos).unwrap();
+    if offset_min == 0 {
+        dt.to_rfc3339_opts(SecondsFormat::AutoSi, true)
+    } else {
+        dt.with_timezone(&FixedOffset::east_opt(offset_min * 60).unwrap()).to_rfc3339_opts(SecondsFormat::AutoSi, false)
+    }
+}
+
+fn hms(sec_of_day: u32) -> String {
+    format!("{:02}:{:02}:{:02}", sec_of_day / 3600, (sec_of_day / 60) % 60, sec_of_day % 60)
+}
+
+const DAY_NAMES: &[&str] = &["Mon", "tue", "WED", "Thursday", "friday", "SATURDAY", "Sun", "mon", "Tuesday", "xyz", "Mond", "", "sunday"];
+
+pub fn gen_prim(rng: &mut Prng, emit: &mut dyn FnMut(Value)) {
+    match rng.below(5) {
+        0 | 1 => {
+            // ip: network (host bits cleared), addresses inside / outside / at the edges, other family, mapped
+            let v6 = rng.chance(1, 3);
+            let (cidr, inside, edges): (String, Vec<String>, Vec<String>) = if !v6 {
+                let len = *rng.pick(&[0u32, 1, 7, 8, 9, 16, 23, 24, 31, 32]);
+                let raw = rng.next() as u32;
+                let mask: u32 = if len == 0 { 0 } else { u32::MAX << (32 - len) };
+                let base = raw & mask;
+                let last = base | !mask;
+                let inside = vec![v4_text(base), v4_text(last), v4_text(base | (rng.next() as u32 & !mask))];
+                let edges = vec![v4_text(base.wrapping_sub(1)), v4_text(last.wrapping_add(1)), v4_text(rng.next() as u32),
+                    v6_text(0xffff_0000_0000u128 | base as u128), v6_text(base as u128), v6_text(rng.next() as u128)];
+                (format!("{}/{}", v4_text(base), len), inside, edges)
+            } else {
+                let len = *rng.pick(&[0u32, 1, 16, 32, 48, 64, 96, 104, 127, 128]);
+                let raw = ((rng.next() as u128) << 64) | rng.next() as u128;
+                let raw = if rng.chance(1, 3) { 0xffff_0000_0000u128 | (raw & 0xffff_ffff) } else { raw };
+                let mask: u128 = if len == 0 { 0 } else { u128::MAX << (128 - len) };
+                let base = raw & mask;
+                let last = base | !mask;
+                let inside = vec![v6_text(base), v6_text(last), v6_text(base | (raw.rotate_left(17) & !mask))];
+                let edges = vec![v6_text(base.wrapping_sub(1)), v6_text(last.wrapping_add(1)), v4_text(base as u32), v4_text((base >> 96) as u32),
+                    v4_text(rng.next() as u32)];
+                (format!("{}/{}", v6_text(base), len), inside, edges)
+            };
+            let cidr = match rng.below(12) {
+                0 => "any".to_string(),
+                1 => cidr.split('/').next().unwrap().to_string(),                // bare address = host network
+                2 => format!("{}/{}", inside[2], cidr.split('/').nth(1).unwrap()), // host bits possibly set: rejected
+                3 => format!("{}/{}", cidr.split('/').next().unwrap(), if v6 { 129 } else { 33 }),
+                4 => (*rng.pick(&["garbage", "", "10.0.0/8", "1.2.3.4/", "/8", "01.2.3.4/32", "1.2.3.256", "::1/128", "1:2:3:4:5:6:7/64"])).to_string(),
+                _ => cidr,
+            };
+            let addr = if rng.chance(1, 2) { rng.pick(&inside).clone() } else { rng.pick(&edges).clone() };
+            let addr = if rng.chance(1, 30) { (*rng.pick(&["nope", "1.2.3", "1.2.3.4.5", ""])).to_string() } else { addr };
+            emit(json!({"mode": "prim", "kind": "ip", "cidr": cidr, "neg": rng.chance(1, 3), "addr": addr}));
+        }
+        2 => {
+            // date-time window: instants around both bounds, sub-second instants, offsets, open / unparsable bounds
+            let t0 = 31_536_000 + rng.below(3_700_000_000) as i64; // 1971 .. 2088
+            let len = *rng.pick(&[0i64, 1, 59, 3600, 86_400, 31 * 86_400, 366 * 86_400]);
+            let (a, b) = if rng.chance(1, 8) { (t0 + len, t0) } else { (t0, t0 + len) };
+            let off = *rng.pick(&[0i32, 0, 0, 60, -90, 330, -720]);
+            let bound = |rng: &mut Prng, t: i64| -> Value {
+                match rng.below(10) {
+                    0 => Value::Null,
+                    1 => json!(*rng.pick(&["not-a-date", "2024-02-30T00:00:00Z", "2024-13-01T00:00:00Z", "", "2024-01-01", "2024-01-01T24:00:00Z"])),
+                    _ => json!(rfc3339(t, 0, off)),
+                }
+            };
+            let start = bound(rng, a);
+            let end = bound(rng, b);
+            let far = t0 + rng.below(400 * 86_400) as i64 - 200 * 86_400;
+            let at_s = *rng.pick(&[a - 1, a, a + 1, b - 1, b, b + 1, (a + b) / 2, far]);
+            let at_ns = *rng.pick(&[0u32, 0, 1, 500_000_000, 999_999_999]);
+            emit(json!({"mode": "prim", "kind": "dt", "start": start, "end": end, "at": rfc3339(at_s, at_ns, *rng.pick(&[0i32, 0, 120, -300]))}));
+        }
+        3 => {
+            // time-of-day window incl. start > end ("across midnight") and the ends of the day
+            let s0 = *rng.pick(&[0u32, 1, 3599, 3600, 43_200, 79_200, 86_398, 86_399]);
+            let s1 = *rng.pick(&[0u32, 1, 7200, 43_200, 86_399, s0, s0 + 1 - (s0 + 1) / 86_400 * 86_400]);
+            let bound = |rng: &mut Prng, t: u32| -> Value {
+                match rng.below(10) {
+                    0 => Value::Null,
+                    1 => json!(*rng.pick(&["25:00:00", "12:60:00", "noon", "", "12:00"])),
+                    _ => json!(hms(t)),
+                }
+            };
+            let start = bound(rng, s0);
+            let end = bound(rng, s1);
+            let day = 400 + rng.below(40_000) as i64;
+            let any_tod = rng.below(86_400) as i64;
+            let tod = *rng.pick(&[s0 as i64 - 1, s0 as i64, s0 as i64 + 1, s1 as i64 - 1, s1 as i64, s1 as i64 + 1, 0, 86_399, any_tod]);
+            let tod = tod.rem_euclid(86_400);
+            emit(json!({"mode": "prim", "kind": "time", "start": start, "end": end,
+                "at": rfc3339(day * 86_400 + tod, *rng.pick(&[0u32, 0, 999_999_999]), *rng.pick(&[0i32, 0, 60]))}));
+        }
+        _ => {
+            if rng.chance(1, 2) {
+                let n = rng.below(5);
+                let days: Vec<&str> = (0..n).map(|_| *rng.pick(DAY_NAMES)).collect();
+                let day = 400 + rng.below(40_000) as i64;
+                let tod = *rng.pick(&[0i64, 1, 43_200, 86_399]);
+                emit(json!({"mode": "prim", "kind": "wd", "days": days, "at": rfc3339(day * 86_400 + tod, 0, *rng.pick(&[0i32, 0, 600, -600]))}));
+            } else {
+                // group keys: two week-day vectors, often equal as sets but different as vectors, or one a prefix of the other
+                let names = ["Mon", "Tue", "Wed", "Thu", "Fri", "Sat", "Sun"];
+                let a: Vec<&str> = (0..rng.range(1, 4)).map(|_| *rng.pick(&names)).collect();
+                let b: Vec<&str> = match rng.below(5) {
+                    0 => a.clone(),
+                    1 => a.iter().rev().cloned().collect(),
+                    2 => a[..a.len() - 1].to_vec(),
+                    3 => {
+                        let mut b = a.clone();
+                        b.push(*rng.pick(&names));
+                        b
+                    }
+                    _ => (0..rng.range(1, 4)).map(|_| *rng.pick(&names)).collect(),
+                };
+                emit(json!({"mode": "prim", "kind": "wdcmp", "a": a, "b": b}));
+            }
+        }
+    }
+}
+
+fn str_vec(v: Option<&Value>) -> Option<Vec<String>> {
+    let mut out = Vec::new();
+    for x in v?.as_array()? {
+        out.push(x.as_str()?.to_string());
+    }
+    Some(out)
+}
+
+fn opt_str(v: Option<&Value>) -> Option<Option<String>> {
+    match v {
+        None | Some(Value::Null) => Some(None),
+        Some(Value::String(s)) => Some(Some(s.clone())),
+        _ => None,
+    }
+}
+
+pub fn run_prim(case: &Value) -> Obs {
+    use chrono::{DateTime, Datelike, Timelike, Utc};
+    use redirectionio::router::{RouteDateTime, RouteIp, RouteTime, RouteWeekday};
+    let kind = match s(case, "kind") {
+        Some(k) => k,
+        None => return Obs::invalid("kind"),
+    };
+    let tag = format!("prim:{kind}");
+    match kind.as_str() {
+        "ip" => {
+            let (cidr, neg, addr) = match (s(case, "cidr"), case.get("neg").and_then(|b| b.as_bool()), s(case, "addr")) {
+                (Some(c), Some(n), Some(a)) => (c, n, a),
+                _ => return Obs::invalid("ip case"),
+            };
+            let c = cidr.parse::<cidr::AnyIpCidr>().ok();
+            let a = addr.parse::<std::net::IpAddr>().ok();
+            let m = match (&c, &a) {
+                (Some(c), Some(a)) => json!((if neg { RouteIp::NotInRange(*c) } else { RouteIp::InRange(*c) }).match_ip(a)),
+                _ => Value::Null,
+            };
+            // through the rule: `Rule::route_ips` drops what does not parse
+            let key = if neg { "not_in_range" } else { "in_range" };
+            let via_rule = serde_json::from_value::<redirectionio::api::Rule>(json!({"id": "r", "rank": 1, "source": {"path": "/", "ips": [{key: cidr}]}}))
+                .ok()
+                .map(|r| {
+                    use redirectionio::router::IntoRoute;
+                    let cfg = redirectionio::RouterConfig::default();
+                    r.into_route(&cfg).ips().is_some()
+                });
+            let mut o = Obs::new(json!({"cidr_ok": c.is_some(), "addr_ok": a.is_some(), "match": m, "route_ips_some": via_rule})).tag(tag);
+            if let (Some(c), Some(a)) = (&c, &a) {
+                o = o.tag(format!("prim:ip:{}", if c.contains(a) { "inside" } else { "outside" }));
+            } else {
+                o = o.tag("prim:ip:unparsable");
+            }
+            o
+        }
+        "dt" | "time" => {
+            let (start, end, at) = match (opt_str(case.get("start")), opt_str(case.get("end")), s(case, "at")) {
+                (Some(a), Some(b), Some(c)) => (a, b, c),
+                _ => return Obs::invalid("window case"),
+            };
+            let at_dt = at.parse::<DateTime<Utc>>().ok();
+            let at_ns = at_dt.and_then(|d| d.timestamp_nanos_opt());
+            let (ws, we, m) = if kind == "dt" {
+                let w = RouteDateTime::from_range(&start, &end);
+                (
+                    w.start.and_then(|d| d.and_utc().timestamp_nanos_opt()),
+                    w.end.and_then(|d| d.and_utc().timestamp_nanos_opt()),
+                    at_dt.map(|d| w.match_datetime(&d)),
+                )
+            } else {
+                let w = RouteTime::from_range(&start, &end);
+                let ns = |t: chrono::NaiveTime| t.num_seconds_from_midnight() as i64 * 1_000_000_000 + t.nanosecond() as i64;
+                (w.start.map(ns), w.end.map(ns), at_dt.map(|d| w.match_datetime(&d)))
+            };
+            let mut o = Obs::new(json!({"start": ws, "end": we, "at": at_ns, "match": m})).tag(tag);
+            if let (Some(a), Some(b)) = (ws, we) {
+                if a >= b {
+                    o = o.tag(format!("prim:{kind}:start>=end"));
+                }
+            }
+            if m == Some(true) {
+                o = o.tag(format!("prim:{kind}:hit"));
+            }
+            o
+        }
+        "wd" => {
+            let (days, at) = match (str_vec(case.get("days")), s(case, "at")) {
+                (Some(d), Some(a)) => (d, a),
+                _ => return Obs::invalid("wd case"),
+            };
+            let r = RouteWeekday::from_weekdays(&days);
+            let at_dt = at.parse::<DateTime<Utc>>().ok();
+            let m = match (&r, &at_dt) {
+                (Some(r), Some(d)) => json!(r.match_datetime(d)),
+                _ => Value::Null,
+            };
+            let nums = r.as_ref().map(|r| r.weekdays.0.iter().map(|d| d.num_days_from_monday()).collect::<Vec<u32>>());
+            Obs::new(json!({"days": nums, "weekday": at_dt.map(|d| d.weekday().num_days_from_monday()), "match": m})).tag(tag)
+        }
+        "wdcmp" => {
+            let (a, b) = match (str_vec(case.get("a")), str_vec(case.get("b"))) {
+                (Some(a), Some(b)) => (a, b),
+                _ => return Obs::invalid("wdcmp case"),
+            };
+            match (RouteWeekday::from_weekdays(&a), RouteWeekday::from_weekdays(&b)) {
+                (Some(ra), Some(rb)) => {
+                    let c = match ra.cmp(&rb) {
+                        std::cmp::Ordering::Less => "lt",
+                        std::cmp::Ordering::Equal => "eq",
+                        std::cmp::Ordering::Greater => "gt",
+                    };
+                    // as BTreeSet keys
+                    let mut set = std::collections::BTreeSet::new();
+                    set.insert(ra.clone());
+                    set.insert(rb.clone());
+                    let mut o = Obs::new(json!({"cmp": c, "eq": ra == rb})).tag(tag);
+                    if (set.len() == 1) != (ra == rb) {
+                        o = o.fail(format!("week-day vectors {a:?} and {b:?}: equal = {}, but as BTreeSet keys they occupy {} slot(s)", ra == rb, set.len()), "weekday-key-collision");
+                    }
+                    o
+                }
+                _ => Obs::new(json!({"cmp": null, "eq": null})).tag(tag),
+            }
+        }
+        _ => Obs::invalid("prim kind"),
+    }
+}
+
 pub fn run(case: &Value) -> Obs {
     let mode = match s(case, "mode") {
         Some(m) => m,
         None => return Obs::invalid("mode"),
     };
+    if mode == "prim" {
+        return run_prim(case);
+    }
     if mode == "cp" {
         let (a, b, n) = match (s(case, "a"), s(case, "b"), case.get("n").and_then(|n| n.as_u64())) {
             (Some(a), Some(b), Some(n)) => (a, b, n),
